@@ -147,6 +147,19 @@ func Or(a, b bool) bool      { return a || b }
 func And(a, b bool) bool     { return a && b }
 func Implies(a, b bool) bool { return !a || b }
 
+func Iff(a, b bool) bool { return a == b }
+
+// SameBytes reports syntactic identity under the engine (same terms);
+// natively plain equality.
+func SameBytes(a, b []byte) bool { return string(a) == string(b) }
+
+// EqBytes is byte-string equality as one formula.
+func EqBytes(a, b []byte) bool { return string(a) == string(b) }
+
+// Axiom adds a model axiom (ideal hash/codec consistency) without a
+// feasibility query.
+func Axiom(b bool) {}
+
 // IteU64/IteInt select without forking.
 func IteU64(c bool, a, b uint64) uint64 {
 	if c {
